@@ -215,6 +215,10 @@ theorem unpackCol_packCol (op : List α → α) (hop : OpConst op) (n : Nat) (k 
     rw [hop _ _ hne hall]
     exact hc g hg j hj
 
+theorem unpackCol_snd (n : Nat) (k : Kind) (vect col : List α) :
+    (unpackCol n k vect col).2 = vect.drop (kindLen n k) := by
+  cases k <;> simp [unpackCol, kindLen]
+
 theorem packCol_unpackCol (n : Nat) (hn : 1 ≤ n) (k : Kind) (vect col : List α)
     (hcol : col.length = n) (hk : kindOK n k = true) (hv : kindLen n k ≤ vect.length) :
     packCol first k (unpackCol n k vect col).1 = vect.take (kindLen n k) ∧
